@@ -24,7 +24,7 @@ func init() {
 		ID:    "C01",
 		Level: "model_checking",
 		Rule: "choice-tree exploration: every corpus template x every assignment of <=k letters of {/*c*/, // c, newline, blank line, multi-line /*c*/} to its inter-token gaps, " +
-			"canonicalised with gofmt and deduplicated (state = canonical text); each distinct canonical file is pushed through Parse/Fprint, explicit Decorator+Restorer on a shared populated FileSet (also: one Restorer restoring two files before either is printed), " +
+			"canonicalised with gofmt and deduplicated (state = canonical text); each distinct canonical file is pushed through Parse/Fprint, explicit Decorator+Restorer on a shared populated FileSet (also: one Restorer restoring two files before either is printed; a Restorer with Extras), " +
 			"ParseFile with 3 parser modes and (k<=1) ParseDir; non-trivial = canonical file with at least one insertion",
 		Assumptions: []string{"go/format of this toolchain defines 'gofmt canonical'", "comment texts range over the alphabet only", "templates are the committed corpus"},
 		Units:       func(tier string) []string { return gapUnits(gen.Templates(), c01Shards) },
@@ -90,6 +90,17 @@ func checkC01(src string, withDir bool) core.Outcome {
 			return buf.String(), err
 		}},
 	}
+	eps = append(eps, ep{"Restorer with Extras", func() (string, error) {
+		f, err := decorator.Parse(src)
+		if err != nil {
+			return "", err
+		}
+		r := decorator.NewRestorer()
+		r.Extras = true
+		var buf bytes.Buffer
+		err = r.Fprint(&buf, f)
+		return buf.String(), err
+	}})
 	eps = append(eps, ep{"one Restorer, two files restored, then both printed", func() (string, error) {
 		// explicit decorator and restorer on the caller's file set: restore the candidate, then a second
 		// file with the same Restorer, and only then print the first
